@@ -22,11 +22,16 @@ let cmd_apiorder (_p : string) (_arg : string) (impl : string) : string * string
     else "FAIL:C18:" ^ (String.map (fun c -> if c = ' ' then '-' else c) (String.sub impl 0 (min 60 (String.length impl)))))
 
 (* the real unix-datagram transport: stop latency per constructor (C18), sender addresses verbatim
-   (C16/C09), a long run of sends does not redirect later ones (C19) *)
+   (C19, C16/C09), a long run of sends does not redirect later ones (C19) *)
 let cmd_unixapi (_p : string) (arg : string) (impl : string) : string * string =
   let (expect, tag) =
     if starts_with "stop " arg then ("returned-ok", "C18:idle-runtime-on-a-unix-socket-did-not-stop:")
     else if starts_with "sender-address" arg then ("verbatim", "C16:sender-address-not-reported-verbatim:")
+    else if starts_with "chan-run" arg then ("same-dispatch", "C16:ignored-datagrams-changed-what-the-runtime-did-with-the-ones-behind-them:")
     else ("each-datagram-reached-its-addressee", "C19:") in
   let clean s = String.map (fun c -> if c = ' ' || c = ',' then '-' else c) (String.sub s 0 (min 70 (String.length s))) in
-  (expect, if impl = "" then "-" else if impl = expect then "ok" else "FAIL:" ^ tag ^ clean impl)
+  (expect, if impl = "" then "-" else if impl = expect then "ok"
+    else if starts_with "sender-address" arg then
+      (* the receiver learns the sender's bound address: C19's clause, and what C09/C16 key datapaths by *)
+      "FAIL:" ^ tag ^ clean impl ^ ",C19:receiver-did-not-learn-the-sender's-bound-address"
+    else "FAIL:" ^ tag ^ clean impl)
